@@ -143,10 +143,10 @@ func (s swN) parse(p *parser, b []byte, into *[]*pvec) int {
 	return n.parse(p, b, into)
 }
 
-func fx(name string, n int) node              { return fixedN{name, n} }
-func v8(name string, inner ...node) node      { return vecN{name, 1, innerOf(inner)} }
-func v16(name string, inner ...node) node     { return vecN{name, 2, innerOf(inner)} }
-func v24(name string, inner ...node) node     { return vecN{name, 3, innerOf(inner)} }
+func fx(name string, n int) node          { return fixedN{name, n} }
+func v8(name string, inner ...node) node  { return vecN{name, 1, innerOf(inner)} }
+func v16(name string, inner ...node) node { return vecN{name, 2, innerOf(inner)} }
+func v24(name string, inner ...node) node { return vecN{name, 3, innerOf(inner)} }
 func innerOf(inner []node) node {
 	switch len(inner) {
 	case 0:
@@ -168,7 +168,7 @@ func refOf(n node) refFn {
 
 // extBlock is `Extension extensions<0..2^16-1>` with opaque extension_data.
 func extBlock(name string) node {
-	return v16(name, listN{seqN{fx(name+".type", 2), v16(name+".data")}})
+	return v16(name, listN{seqN{fx(name+".type", 2), v16(name + ".data")}})
 }
 
 // grew reports the first vector (by path) whose declared length in r exceeds the length the same vector
@@ -290,13 +290,13 @@ func refRecord12(cidLen int) refFn {
 
 // uniHdr is the reference decoding of a DTLS 1.3 unified header (RFC 9147 §4).
 type uniHdr struct {
-	ok             bool
-	c, s, l        bool
-	epoch          byte
-	cid            []byte
-	seq            int
-	length         int
-	size           int
+	ok      bool
+	c, s, l bool
+	epoch   byte
+	cid     []byte
+	seq     int
+	length  int
+	size    int
 }
 
 func refUnified(b []byte, cidLen int) uniHdr {
